@@ -274,7 +274,10 @@ pub fn check_pore(case: &PoreCase, obs: &mut Obs) {
     obs.class(if dilute { "dilute (|rho|_2 < 1e-4)" } else { "not dilute" });
     // cylindrical pores: the response functions inherit the plateau of the polar transform (seen:
     // dN/dT of a gc-PC-SAFT mixture 3.6e-3 off while -dOmega/dmu = N is 6e-3 off at 256 and 512 points)
-    let known_lr: Option<&str> = if dilute {
+    // (GMRES finding, narrowed after bd6e6810 made the tolerance relative to the norm of the whole
+    // right-hand side: one component of a dilute MIXTURE can still be unresolved, pure dilute profiles are accurate)
+    let trace = s0.n.len() >= 2;
+    let known_lr: Option<&str> = if dilute && trace {
         Some(GMRES)
     } else if case.pore.geom == GeomSpec::Cylinder {
         Some(POLAR)
